@@ -173,6 +173,26 @@ func genC19(t *rapid.T) c19Case {
 		stats.labelOnly("echoed-literal-across-messages", 1)
 		return c
 	}
+	if rapid.IntRange(0, 15).Draw(t, "longRun") == 15 {
+		// a long run of small messages: whatever a parser counts or keeps while it reads one message (nesting levels, list
+		// entries, names, ellipses, sizes, positions) accumulates over 20-150 messages if it is not reset
+		k := rapid.IntRange(20, 150).Draw(t, "runLength")
+		bodies := []string{"", "\n<L>", "\n<L[0]>", "\n<L <L> <L>>", "\n<L <L <L>>>", "\n<U1 1>", "\n<A>", "\n<B>", "\n<L <A \"x\"> <U2 v>>", "\n<A[0..9] ack>", "\n<L <U1 a> ...>",
+			"\n<L <L <I2 b> ...> ...>", "\n<L[2] <BOOLEAN T> <F4 1.5>>", "\n<L x y>", "\n<L <L <L <L <L <L <L <L>>>>>>>>", "\n<L <L> <L> <L> <L> <L> <L> <L> <L>>"}
+		favourite := rapid.IntRange(0, len(bodies)-1).Draw(t, "favouriteBody")
+		for i := 0; i < k; i++ {
+			b := bodies[favourite]
+			if rapid.IntRange(0, 2).Draw(t, "otherBody") == 2 {
+				b = bodies[rapid.IntRange(0, len(bodies)-1).Draw(t, "body")]
+			}
+			hdr := fmt.Sprintf("S%dF%d", 1+i%100, 1+2*(i%100))
+			hdr += rapid.SampledFrom([]string{" W", "", " [W]", " H->E", " W H<-E nm"}).Draw(t, "hdrRest")
+			c.Texts = append(c.Texts, hdr+b+"\n.\n")
+			c.Seps = append(c.Seps, rapid.SampledFrom([]string{"", "", " ", "\n", " // c\n"}).Draw(t, "joiner"))
+		}
+		stats.labelOnly("long-run-of-small-messages", 1)
+		return c
+	}
 	if rapid.IntRange(0, 29).Draw(t, "gluedDot") == 29 {
 		// a header-only message whose terminator is glued to its name ("Name."): the unchanged parser takes the
 		// dot as part of the name and rejects the text (excluded); a parser that accepts it must keep the messages apart
